@@ -10,13 +10,16 @@ from ..common import CaseInfo, PamsCrash, Violation, classify_exception
 
 warnings.simplefilter("ignore")
 from pams.fundamentals import Fundamentals  # noqa: E402
+from pams.market import Market  # noqa: E402
+from pams.simulator import Simulator  # noqa: E402
 
 ID = "C12"
 RULE = ("(machine) Hypothesis generates 1-5 markets (initial 1e-3..1e6, drift +-0.01, volatility 0 or 1e-4..0.3), optional "
         "pairwise correlations from a generated factor matrix (positive definite by construction) and an op sequence over one "
         "real Fundamentals: reads of single times / time lists up to 450 steps ahead (crossing the 100-step generation "
-        "chunks), change_drift / change_volatility / set_correlation / remove_correlation at a time t <= horizon, and shocks "
-        "(what Market.change_fundamental_price does). Oracle: price(0) = initial, every price positive and finite, every "
+        "chunks), change_drift / change_volatility / set_correlation / remove_correlation at a time t <= horizon, clock advances of real Markets inside a "
+        "real Simulator (1-100 steps) and shocks through the real Market.change_fundamental_price at the markets' current time; "
+        "correlated pairs are named in either order. Oracle: price(0) = initial, every price positive and finite, every "
         "remembered value at a time <= t of a later change is returned unchanged, and with zero volatility (or with the normal "
         "source replaced by zeros in half of the cases) the path equals level * exp(drift * dt) from the last change point (rel "
         "1e-9). Non-trivial = >=2 correlated markets with volatility and >=1 change or shock after a chunk boundary. (stats) "
@@ -91,11 +94,13 @@ def machine_cases(draw, tier):
     n_ops = draw(st.integers(3, 25))
     ops = []
     for _ in range(n_ops):
-        kind = draw(st.sampled_from(["read"] * 5 + ["drift", "vol", "shock", "shock", "corr", "uncorr"]))
+        kind = draw(st.sampled_from(["read"] * 4 + ["adv"] * 3 + ["drift", "vol", "shock", "shock", "corr", "uncorr"]))
         i = draw(st.integers(0, n - 1))
         if kind == "read":
             ds = draw(st.lists(st.sampled_from([-120, -30, -3, -1, 0, 1, 2, 5, 60, 99, 100, 101, 130]), min_size=1, max_size=4))
             ops.append(["read", i, ds, draw(st.booleans())])
+        elif kind == "adv":
+            ops.append(["adv", i, draw(st.sampled_from([1, 1, 2, 5, 30, 98, 100]))])
         elif kind == "drift":
             ops.append(["drift", i, draw(st.floats(-0.01, 0.01)), draw(st.floats(0, 1))])
         elif kind == "vol":
@@ -107,25 +112,40 @@ def machine_cases(draw, tier):
         else:
             ops.append(["uncorr", i, draw(st.integers(0, n - 1)), draw(st.floats(0, 1))])
     return {"seed": draw(st.integers(0, 2**31 - 1)), "markets": markets, "corr": corr, "zero_noise": draw(st.booleans()), "ops": ops,
-            "max_time": 230 if tier == "quick" else 450}
+            "max_time": 230 if tier == "quick" else 450, "flip": draw(st.booleans())}
 
 
-def build(case):
-    f = Fundamentals(prng=random.Random(case["seed"]))
+def build(case, with_markets=False):
+    """the Fundamentals under test; with_markets=True builds it inside a real Simulator with one real Market per id, so that
+    clock advances and shocks go through the calls pams itself makes."""
+    sim = None
+    if with_markets:
+        sim = Simulator(prng=random.Random(case["seed"]))
+        f = sim.fundamentals
+    else:
+        f = Fundamentals(prng=random.Random(case["seed"]))
     for i, m in enumerate(case["markets"]):
         _call(f.add_market, market_id=i, initial=m["initial"], drift=m["drift"], volatility=m["vol"])
+        if sim is not None:
+            mk = Market(market_id=i, prng=random.Random(i), simulator=sim, name=f"M{i}")
+            mk.setup({"tickSize": 1.0, "marketPrice": m["initial"]})
+            sim._add_market(mk)
     volm = [i for i, m in enumerate(case["markets"]) if m["vol"] > 0]
     pairs = {}
     if case.get("corr"):
         for a in range(len(volm)):
             for b in range(a + 1, len(volm)):
-                _call(f.set_correlation, market_id1=volm[a], market_id2=volm[b], corr=case["corr"][a][b])
-                pairs[(volm[a], volm[b])] = case["corr"][a][b]
+                # the pair may be named in either order
+                i1, i2 = (volm[b], volm[a]) if case.get("flip") and (a + b) % 2 == 1 else (volm[a], volm[b])
+                _call(f.set_correlation, market_id1=i1, market_id2=i2, corr=case["corr"][a][b])
+                pairs[(i1, i2)] = case["corr"][a][b]
+    if with_markets:
+        return f, volm, pairs, sim
     return f, volm, pairs
 
 
 def machine_check(case):
-    f, volm, pairs = build(case)
+    f, volm, pairs, sim = build(case, with_markets=True)
     n = len(case["markets"])
     if case["zero_noise"]:
         if not hasattr(f, "_np_prng"):
@@ -133,6 +153,13 @@ def machine_check(case):
         f._np_prng = ZeroNormal()
     mem = {}
     maxt = 0
+    # the markets' clock: -1 -> 0 as the runner does before the first session
+    _call(sim._update_times_on_markets, sim.markets)
+    T = 0
+    for j, mk in enumerate(sim.markets):
+        mem[(j, 0)] = mk.get_fundamental_price(0)
+        if mem[(j, 0)] != case["markets"][j]["initial"]:
+            raise Violation("C12.initial_value", f"market {j}: fundamental recorded at time 0 is {mem[(j, 0)]!r}, configured {case['markets'][j]['initial']!r}")
     vols = [m["vol"] for m in case["markets"]]
     drifts = [m["drift"] for m in case["markets"]]
     # closed-form segments per market: (t0, level at t0, drift from t0 on), ordered by t0
@@ -184,7 +211,26 @@ def machine_check(case):
                     if not math.isclose(v, want, rel_tol=1e-9):
                         raise Violation("C12.closed_form", f"market {i} time {t}: {v!r}, expected level*exp(drift*dt) = {want!r} (segments {segs[i]})")
             continue
-        t = int(op[-1] * maxt)
+        if kind == "adv":
+            for _ in range(min(op[2], case["max_time"] - T)):
+                _call(sim._update_times_on_markets, sim.markets)
+                T += 1
+                for j, mk in enumerate(sim.markets):
+                    v = mk.get_fundamental_price(T)
+                    if not (v > 0 and math.isfinite(v)):
+                        raise Violation("C12.positive_finite", f"market {j} time {T}: {v!r}")
+                    if (j, T) in mem and mem[(j, T)] != v:
+                        raise Violation("C12.history_changed", f"market {j} time {T}: a read ahead returned {mem[(j, T)]!r}, the clock advance recorded {v!r}")
+                    mem[(j, T)] = v
+                    if deterministic(j) and not math.isclose(v, closed(j, T), rel_tol=1e-9):
+                        raise Violation("C12.closed_form", f"market {j} time {T}: {v!r}, expected {closed(j, T)!r} (segments {segs[j]})")
+            maxt = max(maxt, T)
+            if T >= 100:
+                flags.add("crossed_chunk")
+            flags.add("advance")
+            continue
+        # parameter changes and shocks happen at the current time of the markets (what events do)
+        t = T
         if kind == "drift":
             lvl = closed(i, t) if deterministic(i) else None
             _call(f.change_drift, market_id=i, drift=op[2], time=t)
@@ -225,15 +271,21 @@ def machine_check(case):
             _call(f.remove_correlation, market_id1=i, market_id2=j, time=t)
             corr_now = trial
         elif kind == "shock":
-            if not (hasattr(f, "prices") and hasattr(f, "_generated_until")):
-                continue  # the attributes Market.change_fundamental_price writes are gone: shocks cannot be emulated here
-            # what Market.change_fundamental_price does
-            cur = _call(f.get_fundamental_price, market_id=i, time=t)
+            # the real thing: Market.change_fundamental_price at the market's current time
+            mk = sim.markets[i]
+            cur = mk.get_fundamental_price(t)
             if (i, t) in mem and mem[(i, t)] != cur:
                 raise Violation("C12.history_changed", f"market {i} time {t}: was {mem[(i, t)]!r}, now {cur!r}")
+            before = {(j, u): f.get_fundamental_price(j, u) for j in range(n) for u in range(max(0, t - 3), t + 1) if (j, u) != (i, t)}
+            _call(mk.change_fundamental_price, scale=op[2])
             new = cur * op[2]
-            f.prices[i][t] = new
-            f._generated_until = t
+            got = mk.get_fundamental_price(t)
+            if not math.isclose(got, new, rel_tol=1e-12) or not math.isclose(_call(f.get_fundamental_price, market_id=i, time=t), new, rel_tol=1e-12):
+                raise Violation("C12.shock_level", f"market {i} shocked by {op[2]} at {t}: recorded {got!r}, expected {new!r}")
+            for (j, u), v in before.items():
+                if f.get_fundamental_price(j, u) != v:
+                    raise Violation("C12.history_changed", f"a shock of market {i} at time {t} altered market {j} at time {u}")
+            new = got
             mem[(i, t)] = new
             if t == 0:
                 shocked0.add(i)
@@ -254,6 +306,8 @@ def machine_check(case):
             flags.add("change_after_chunk")
         maxt = t
         flags.add("change")
+        if t > 0:
+            flags.add("change_after_start")
     nt = len([v for v in vols if v > 0]) >= 2 and bool(corr_now) and "change_after_chunk" in flags
     return CaseInfo(nontrivial=nt, classes=sorted(flags) + (["zero_noise"] if case["zero_noise"] else []) + (["correlated"] if corr_now else []),
                     steps=len(case["ops"]), sample={"markets": case["markets"], "corr": case["corr"], "ops": case["ops"][:10], "zero_noise": case["zero_noise"]})
@@ -284,7 +338,7 @@ def stats_cases(draw, tier):
         else:
             change = {"kind": "corr", "market": 0, "other": 1, "value": draw(st.sampled_from([-0.6, 0.0, 0.7])), "at": at}
     return {"seed": draw(st.integers(0, 2**31 - 1)), "markets": markets, "corr": corr, "N": 20000 if tier == "quick" else 50000,
-            "chunked": draw(st.booleans()), "change": change}
+            "chunked": draw(st.booleans()), "change": change, "flip": draw(st.booleans())}
 
 
 def stats_check(case):
@@ -368,7 +422,8 @@ def probe_cases(draw, tier):
     markets = draw(market_params(n))
     volm = [i for i, m in enumerate(markets) if m["vol"] > 0]
     corr = draw(corr_matrix(len(volm))) if len(volm) >= 2 else None
-    return {"seed": draw(st.integers(0, 2**31 - 1)), "markets": markets, "corr": corr, "start": draw(st.sampled_from([0, 0, 95, 100, 150]))}
+    return {"seed": draw(st.integers(0, 2**31 - 1)), "markets": markets, "corr": corr, "start": draw(st.sampled_from([0, 0, 95, 100, 150])),
+            "flip": draw(st.booleans())}
 
 
 def probe_check(case):
